@@ -58,7 +58,7 @@ def gen_config(rng):
         for oc in active:
             if oc != src and rng.random() < .6:
                 share[oc] = src
-    return {"bare": bare, "methods": methods, "kinds": kinds, "clear": rng.random() < .6, "bare_share": share,
+    return {"bare": bare, "methods": methods, "kinds": kinds, "clear": rng.random() < .6, "bare_share": share, "grow": rng.random() < .3,
             "versions": rng.sample([6, 7, 8, 9, 10], 2)}
 
 
@@ -104,7 +104,11 @@ def build_router(pt, cfg):
         f.__name__ = name
         return f
 
-    for m in cfg["methods"]:
+    for mi, m in enumerate(cfg["methods"]):
+        if cfg.get("grow") and mi == 1:
+            # the router is built once before the remaining methods are registered (under both calling conventions)
+            r.compile_program(version=7)
+            r.compile_program(version=8)
         name = m["name"]
         f = mk_method(name, m["nargs"])
         sig = name + ("()void" if m["nargs"] == 0 else "(uint64)void")
